@@ -1,7 +1,7 @@
 """python3 -m vf.mutmatrix [id ...] : run the registered checks against every seeded change under /verif/seeded and record
 which check catches it (meta.json 'caught_by').  Uses vf/mutrun.sh (scratch worktree /tmp/mut/cur at /repo's HEAD)."""
 import json, os, re, subprocess, sys
-ALSO = {"C01": ["C03", "C02"], "C04": ["C14"], "C05": ["C03", "C18"], "C02": ["C01"], "C03": ["C01"], "C06": ["C02"], "C07": ["C14"], "C09": ["C02"],
+ALSO = {"C01": ["C03", "C02", "C08", "C09"], "C04": ["C14"], "C05": ["C03", "C18"], "C02": ["C01"], "C03": ["C01"], "C06": ["C02"], "C07": ["C14"], "C09": ["C02"],
         "C13": ["C02", "C18"], "C14": ["C04"], "C08": [], "C16": [], "C17": [], "C20": []}
 ids = sys.argv[1:] or sorted(os.listdir("/verif/seeded"))
 for mid in ids:
